@@ -72,6 +72,18 @@ def mk_sig(S, clsname, N, rate, align="center", with_t0=True, nchan=None):
     return cls(data, **kw), dt, t0v
 
 
+def _wc(ctx, nmax):
+    """witness models: small N; band well away from 0 Hz (with a label within rounding of 0 Hz the rtol-only
+    comparisons of channel labels in the real code are decided by float round-off, which exact arithmetic cannot see)"""
+    i = ctx.inputs
+    c = [i["N"] <= nmax]
+    if "cf" in i:
+        c += [i["cf"] >= 10**6, i["cf"] <= 10**7]
+    if "bw" in i:
+        c += [i["bw"] >= 10**3, i["bw"] <= 10**5]
+    return c
+
+
 def tslice(sig, a, b):
     return sig[SymSlice(a, b, None, force=True)] if isinstance(sig.data, TArr) else sig[int(a):int(b)]
 
@@ -137,7 +149,7 @@ class TimeSplit(Unit):
         return checks
 
     def witness_constraints(self, ctx):
-        return [ctx.inputs["N"] <= 20]
+        return _wc(ctx, 20)
 
     def compare(self, S, args, out, CS, cargs, cout):
         return compare_signals(S, out, CS, cout, rtol=1e-9, time_tol=1e-6)
@@ -216,7 +228,7 @@ class Reject(Unit):
         return [("must-be-refused", z3.BoolVal(True))]
 
     def witness_constraints(self, ctx):
-        return [ctx.inputs["N"] <= 20]
+        return _wc(ctx, 20)
 
     def compare(self, S, args, out, CS, cargs, cout):
         return compare_signals(S, out, CS, cout)
@@ -265,7 +277,7 @@ class FreqSplit(Unit):
         return same_signal(S, vin, vo, iterm(a["N"]))
 
     def witness_constraints(self, ctx):
-        return [ctx.inputs["N"] <= 12]
+        return _wc(ctx, 12)
 
     def compare(self, S, args, out, CS, cargs, cout):
         return compare_signals(S, out, CS, cout, rtol=1e-9, time_tol=1e-6)
